@@ -15,13 +15,23 @@ from . import stacks as S
 
 
 def gen_c01_stack(rng):
-    kind = rng.choice(["tensor", "tensor", "pil", "semseg"])
+    kind = rng.choice(["tensor", "tensor", "pil", "semseg", "torchwrap"])
     n = rng.randint(1, 12)
+    if kind == "torchwrap":
+        # a plain torch dataset adapted by TorchWrapper: items x and class only, no context
+        stack = {"root": {"kind": kind, "n": n, "clobber": {}}, "below": [], "seeded": None, "above": [], "concat": None}
+        for _ in range(rng.choice([0, 1, 2])):
+            layer = S.gen_layer(rng, n)
+            if layer["t"] in ("subset", "shuffle", "repeat", "percent"):
+                stack["above"].append(layer)
+        if rng.random() < 0.4:
+            stack["seeded"] = {"w": "xtw", "seed": rng.randint(0, 99), "transform": {"t": "leaf", "name": rng.choice(["KDAdditiveGaussianNoise", "KDRandomCrop"])}}
+        return stack
     stack = {"root": {"kind": kind, "n": n, "clobber": {}, "ctx_tags": True}, "below": [], "seeded": None, "above": [], "concat": None}
     for _ in range(rng.choice([0, 0, 1, 2])):
         stack["below"].append(S.gen_layer(rng, n))
     r = rng.random()
-    dom = {"tensor": "T", "pil": "P", "semseg": "T"}[kind]
+    dom = {"tensor": "T", "pil": "P", "semseg": "T", "torchwrap": "T"}[kind]
     seed = rng.randint(0, 999)
     if kind == "semseg" and r < 0.6:
         stack["seeded"] = {"w": "semseg", "seed": seed, "transforms": rng.sample(["resize", "flip", "pad", "noise"], rng.randint(1, 3))}
@@ -74,7 +84,7 @@ def build_c01(stack):
     for layer in stack.get("above", []):
         ds = S.apply_layer(ds, layer)
     if stack.get("concat"):
-        other = RootDataset(stack["root"]["kind"], stack["concat"]["n"], ctx_tags=True, ds_id=1)
+        other = RootDataset(stack["root"]["kind"] if stack["root"]["kind"] != "torchwrap" else "tensor", stack["concat"]["n"], ctx_tags=True, ds_id=1)
         ds = KDConcatDataset([ds, other], balanced_sampling=stack["concat"]["balanced"])
     return ds
 
@@ -95,6 +105,9 @@ def gen_mode(rng, stack):
     kind = stack["root"]["kind"]
     items = ["x", "class", "index", "x", "class", "y", "source", "target", "semseg"]
     sd = stack.get("seeded")
+    if kind == "torchwrap":
+        items = ["x", "class", "index", "x", "class"]
+        return " ".join(rng.choice(items) for _ in range(rng.choice([1, 1, 2, 2, 3, 4, 6])))
     if sd and sd["w"] == "mix" and rng.random() < 0.85:
         items = ["x", "class", "index", "x", "class"]  # what the outermost (fused) wrapper implements
     if sd and sd["w"] == "semseg" and rng.random() < 0.85:
